@@ -95,7 +95,7 @@ def run_formula(ctx):
         # --- fan beam
         for shifts in (False, True):
             comp = 'FanBeamGeometry' + ('/shift-functions' if shifts else '')
-            args = dict(src_to_det_init=s2d.copy(), translation=tr2.copy())
+            args = dict(src_to_det_init=s2d * (rng.uniform(0.5, 2), 1.0, 1 + 8e-6, 1 - 3e-9)[trial % 4], translation=tr2.copy())
             keep = {k: v.copy() for k, v in args.items()}
             try:
                 g = TOMO.FanBeamGeometry(apart, d1, sr, dr, **args, **({'src_shift_func': sfun2, 'det_shift_func': dfun2} if shifts else {}))
@@ -125,14 +125,17 @@ def run_formula(ctx):
                 except Exception as e:
                     ctx.violation(comp, 'scalar', 'raises:' + type(e).__name__, message=str(e)[:200])
         # --- cone beam (generic axis)
-        ax = rvec(rng, 3, True)
+        # the axis as handed in (a direction of some length kind); the model uses its exact normalisation
+        ax_in = length_kind(rvec(rng, 3, True), trial)
+        ax = ax_in / np.linalg.norm(ax_in)
         s3 = np.cross(ax, rvec(rng, 3, True))
         s3 /= np.linalg.norm(s3)
+        scale_kind = (rng.uniform(0.5, 2), 1.0, 1 + 8e-6, 1 - 3e-9)[(trial // 6) % 4]
         pitch = rng.uniform(-2, 2)
         off = rng.normal()
         for shifts, curved in itertools.product((False, True), (None, (5.0, None), (5.0, 5.0))):
             comp = 'ConeBeamGeometry' + ('/shift-functions' if shifts else '') + ('' if curved is None else ('/cylindrical' if curved[1] is None else '/spherical'))
-            args = dict(axis=ax.copy(), src_to_det_init=s3.copy(), translation=tr3.copy())
+            args = dict(axis=ax_in.copy(), src_to_det_init=s3 * scale_kind, translation=tr3.copy())
             keep = {k: v.copy() for k, v in args.items()}
             dp = d2 if curved is None else odl.uniform_partition([-0.5, -0.4], [0.6, 0.4], (5, 4))
             try:
@@ -185,7 +188,7 @@ def run_formula(ctx):
         except Exception as e:
             ctx.violation('Parallel2dGeometry', 'scalar', 'raises:' + type(e).__name__, message=str(e)[:200])
         p3 = np.cross(ax, rvec(rng, 3, True)) * rng.uniform(0.5, 2)
-        args = dict(axis=ax.copy(), det_pos_init=p3.copy(), translation=tr3.copy())
+        args = dict(axis=ax_in.copy(), det_pos_init=p3.copy(), translation=tr3.copy())
         keep = {k: v.copy() for k, v in args.items()}
         ctx.ev('formula-model')
         try:
@@ -251,6 +254,25 @@ def run_formula(ctx):
 # relational invariants
 
 
+def length_kind(v, k):
+    """The same direction given with a length of another kind: vectors are documented as directions, and a vector that is
+    *almost* of unit length (typed with 5 decimals, stored in single precision, scaled by 1 + 8e-6) is still not a unit vector."""
+    v = np.asarray(v, dtype=float)
+    u = v / np.linalg.norm(v)
+    kind = k % 6
+    if kind == 0:
+        return v
+    if kind == 1:
+        return u
+    if kind == 2:
+        return np.round(u, 5)
+    if kind == 3:
+        return u.astype('float32').astype('float64')
+    if kind == 4:
+        return u * (1 + 8e-6)
+    return u * (1 - 3e-9)
+
+
 def orth_axes3(rng, v):
     a = np.cross(v, rng.normal(size=3))
     a /= np.linalg.norm(a)
@@ -267,9 +289,9 @@ def geometry_recipes(rng, k):
     tr3 = rng.normal(size=3) if k % 2 else None
     kw2 = {} if tr2 is None else {'translation': tr2}
     kw3 = {} if tr3 is None else {'translation': tr3}
-    p = rvec(rng, 2)
+    p = length_kind(rvec(rng, 2), k // 2)
     M = np.linalg.qr(rng.normal(size=(2, 2)))[0]
-    ax = rvec(rng, 3)
+    ax = length_kind(rvec(rng, 3), k // 2)
     a, b = orth_axes3(rng, ax)
     M3 = np.linalg.qr(rng.normal(size=(3, 3)))[0]
     M3 = M3 * np.sign(np.linalg.det(M3))
@@ -315,7 +337,7 @@ def rand_d(g, rng):
 
 def run_relational(ctx):
     idx = 0
-    for k in range(ctx.reps(4, 16)):
+    for k in range(ctx.reps(12, 24)):
         rng_c = ctx.crng('geom-ctor', k)
         for name, thunk in geometry_recipes(rng_c, k):
             idx += 1
@@ -339,7 +361,7 @@ def run_relational(ctx):
                     d = rand_d(g, rng)
                     ctx.ev('rigid-motion')
                     R = g.rotation_matrix(m)
-                    if R.shape != (nd, nd) or not np.allclose(R @ R.T, np.eye(nd), atol=1e-12) or not np.isclose(np.linalg.det(R), 1):
+                    if R.shape != (nd, nd) or not np.allclose(R @ R.T, np.eye(nd), atol=1e-12) or not np.isclose(np.linalg.det(R), 1, rtol=0, atol=1e-11):
                         ctx.violation(comp, 'scalar', 'rotation-not-in-SO(n)')
                     ref = g.det_refpoint(m)
                     surf = g.detector.surface(d)
